@@ -162,7 +162,7 @@ func New(cfg Config) *Sim {
 		cfg.NumCPU = 4
 	}
 	if cfg.Watchdog == 0 {
-		cfg.Watchdog = 60 * time.Second
+		cfg.Watchdog = 120 * time.Second
 	}
 	if cfg.Sched == nil {
 		cfg.Sched = NewReplayTape("sched", nil)
